@@ -528,9 +528,10 @@ pub fn parse_footer_info(info: &[u8]) -> Result<RefFooter, String> {
             if r.take(7)? != FOOTER_IDENT_HASHES {
                 return Err("bad hashes-section ident".into());
             }
-            if r.u8()? != 0 {
-                return Err("bad hashes-section version".into());
-            }
+            // the sub-section version tags are not part of what the property constrains (an implementation
+            // may accept older or newer tags): they are skipped here; what matters is that the fields a
+            // validator relied on are consistent with the chunk data
+            let _hashes_version = r.u8()?;
             let n = r.u32()?;
             if (n as usize) > info.len() {
                 return Err(format!("chunk count {n} exceeds footer size"));
@@ -543,9 +544,7 @@ pub fn parse_footer_info(info: &[u8]) -> Result<RefFooter, String> {
             if r.take(7)? != FOOTER_IDENT_BOUNDARIES {
                 return Err("bad boundaries-section ident".into());
             }
-            if r.u8()? != 1 {
-                return Err("bad boundaries-section version".into());
-            }
+            let _boundaries_version = r.u8()?;
             if r.u32()? != n {
                 return Err("chunk counts differ (boundaries section)".into());
             }
